@@ -5,7 +5,7 @@ Open Scope N_scope.
 
 (** IpDgram::new(iph, payload, raw).frag(frag_off, mf) *)
 Definition ipdgram (iph : ip_hdr) (payload : bytes) (raw : bool) (off : N) (mf : bool) : outcome packet :=
-  do t <- cadd two16 "ip4.rs tot_len overflow" (wrap16 (len payload)) 20;
+  let t := wrap16 (wrap16 (len payload) + 20) in
   let h := ip_calc_csum (ip_set_mf (ip_set_frag_off (ip_set_tot_len iph t) off) mf) in
   let l3 := ip_ser h ++ payload in
   Ok (pkt_of_body (if raw then l3
